@@ -239,7 +239,30 @@ def _events(F, b, defs, kind, key):
         return sorted(set(out))
     if kind == "VISIT":
         return sorted(set(closure_visit_events(F, b, defs, key) + events(b, defs, "expr", key)))
-    return events(b, defs, kind, key)
+    out = events(b, defs, kind, key)
+    if key is None and kind.startswith("emit_"):
+        # an emitter reached through a private helper of the lowerer that itself visits no sub-expression (e.g. a helper that reads a
+        # discriminant and switches on it) is that emission, at the place of the helper call
+        out = sorted(set(out) | {bi for bi, t in mir.calls(b) if _emits_only(F, mir.callee(t) or "", kind)})
+    return out
+
+
+_EMITS = {}
+
+
+def _emits_only(F, path, kind, depth=0):
+    k_ = (path, kind)
+    if k_ in _EMITS:
+        return _EMITS[k_]
+    _EMITS[k_] = False
+    hb = F.body(path)
+    res = False
+    if hb is not None and hb.mir and path.startswith("mir::lower::") and depth < 2:
+        names_ = [(mir.callee(t) or "") for _, t in mir.calls(hb)]
+        visits = any(hir.last(n) in ("expr", "block", "stmt") and n.startswith("mir::lower::") for n in names_)
+        res = (not visits) and any(hir.last(n) == kind or _emits_only(F, n, kind, depth + 1) for n in names_)
+    _EMITS[k_] = res
+    return res
 
 
 def _delegates(F, b):
